@@ -257,11 +257,24 @@ def quiet_fds():
 _pool = None
 
 
+class WorkerCrash(Exception):
+    """The interpreter died (segmentation fault, abort, ...) while a worker ran `fn(item)`."""
+
+    def __init__(self, item, status):
+        super().__init__(f"the interpreter died ({status}) while the harness exercised one case")
+        self.item, self.status = item, status
+
+
 def pool():
+    """Forked workers.  A worker that dies (a crash of the interpreter inside the library or numpy/pandas) breaks the
+    executor instead of leaving the map waiting for ever."""
     global _pool
     if _pool is None:
         import multiprocessing as mp
-        _pool = mp.get_context("fork").Pool(min(16, os.cpu_count() or 1), initializer=_worker_init)
+        from concurrent.futures import ProcessPoolExecutor
+        _pool = ProcessPoolExecutor(min(16, os.cpu_count() or 1), mp_context=mp.get_context("fork"),
+                                    initializer=_worker_init)
+        _pool.submit(int).result()          # all workers are forked here, not at the first map
     return _pool
 
 
@@ -279,10 +292,87 @@ def _worker_init():
 
 
 def pmap(fn, items, chunksize=None):
+    global _pool
     items = list(items)
     if len(items) < 24:
         return [fn(x) for x in items]
-    return pool().map(fn, items, chunksize or max(1, len(items) // 64))
+    from concurrent.futures.process import BrokenProcessPool
+    try:
+        return list(pool().map(fn, items, chunksize=chunksize or max(1, len(items) // 64)))
+    except BrokenProcessPool:
+        try:
+            _pool.shutdown(wait=False, cancel_futures=True)
+        except Exception:  # noqa: BLE001
+            pass
+        _pool = None
+        return _isolated_map(fn, items)
+
+
+def _isolated_map(fn, items):
+    """After a worker died: the items again, in forked children that report item by item, so that the item which
+    kills the interpreter is identified (-> WorkerCrash) -- or, when nothing dies this time, the results."""
+    import pickle
+    import selectors
+    import struct
+    n = len(items)
+    out = [None] * n
+    nproc = min(16, os.cpu_count() or 1)
+    sel = selectors.DefaultSelector()
+    state = {}
+    for k in range(nproc):
+        idxs = list(range(k, n, nproc))
+        if not idxs:
+            continue
+        r, w = os.pipe()
+        pid = os.fork()
+        if pid == 0:
+            code = 0
+            try:
+                os.close(r)
+                with os.fdopen(w, "wb") as f:
+                    for i in idxs:
+                        try:
+                            b = pickle.dumps(("ok", fn(items[i])))
+                        except Exception as e:  # noqa: BLE001
+                            b = pickle.dumps(("exc", repr(e)))
+                        f.write(struct.pack("<qq", i, len(b)) + b)
+                        f.flush()
+            except BaseException:  # noqa: BLE001
+                code = 3
+            finally:
+                os._exit(code)
+        os.close(w)
+        state[r] = {"pid": pid, "idxs": idxs, "done": 0, "buf": b""}
+        sel.register(r, selectors.EVENT_READ)
+    crash = None
+    while state:
+        for key, _ in sel.select():
+            r = key.fd
+            st = state[r]
+            data = os.read(r, 1 << 20)
+            if data:
+                st["buf"] += data
+                while len(st["buf"]) >= 16:
+                    i, ln = struct.unpack("<qq", st["buf"][:16])
+                    if len(st["buf"]) < 16 + ln:
+                        break
+                    kind, val = pickle.loads(st["buf"][16:16 + ln])
+                    st["buf"] = st["buf"][16 + ln:]
+                    st["done"] += 1
+                    if kind == "exc":
+                        raise RuntimeError(val)
+                    out[i] = val
+                continue
+            sel.unregister(r)
+            os.close(r)
+            _, status = os.waitpid(st["pid"], 0)
+            if st["done"] < len(st["idxs"]) and crash is None:
+                sig = os.WTERMSIG(status) if os.WIFSIGNALED(status) else None
+                crash = (st["idxs"][st["done"]], f"signal {sig}" if sig else f"exit status {status}")
+            del state[r]
+    if crash:
+        raise WorkerCrash(items[crash[0]], crash[1])
+    return out
 
 
 def pmap_timeout(fn, items, timeout):
